@@ -126,6 +126,31 @@ def _map_substrates_to_labelmap(
     return res
 
 
+def _map_labelmap_to_substrates(
+    substrates: list[str], labelmap: list[int]
+) -> list[str]:
+    """Get the substrate label position each product label position is built from.
+
+    A label map is read as everywhere else in the package (`LabelMapper`, the
+    documentation): product position `i` is built from substrate position
+    `labelmap[i]`. `_map_substrates_to_labelmap` reads it the other way round,
+    which only gives the same result for maps that are their own inverse.
+
+    Args:
+        substrates: List of substrate label positions
+        labelmap: For every product label position the substrate label position it is built from
+
+    Returns:
+        List of substrate label positions in the order of the product label positions
+
+    Examples:
+        >>> _map_labelmap_to_substrates(['A', 'B', 'C'], [2, 0, 1])
+        ['C', 'A', 'B']
+
+    """
+    return [substrates[pos] for _, pos in zip(substrates, labelmap, strict=True)]
+
+
 def _add_label_influx_or_efflux(
     substrates: list[str],
     products: list[str],
@@ -283,7 +308,7 @@ class LinearLabelMapper:
             subs = [j for i in subs for j in isotopomers[i]]
             prods = [j for i in prods for j in isotopomers[i]]
             subs, prods = _add_label_influx_or_efflux(subs, prods, label_map)
-            subs = _map_substrates_to_labelmap(subs, label_map)
+            subs = _map_labelmap_to_substrates(subs, label_map)
             for i, (substrate, product) in enumerate(zip(subs, prods, strict=True)):
                 if substrate == product:
                     continue
